@@ -1,0 +1,116 @@
+//go:build verif
+// +build verif
+
+// Contracts for the deductive verifier in /verif (govc). This file contains only
+// comments: with the "verif" build tag it adds no declarations, without it the
+// compiler does not see it at all.
+
+package raft
+
+// ---------------------------------------------------------------------------
+// ghost file system (T-fs): fs[p] == true iff a file named p exists.
+// vfile(dir, ext, a, b) is the name valueFile() builds; vf1/vf2 are its inverses
+// (decimal formatting is injective: T-std).
+//
+//@ ghost var fs map[uint64]bool
+//@ ghost func vfile(string, string, uint64, uint64) uint64
+//@ ghost func vf1(uint64) uint64
+//@ ghost func vf2(uint64) uint64
+//@ axiom [T-std.vfile-injective] forall(d, e, a, b, vf1(vfile(d, e, a, b)) == a && vf2(vfile(d, e, a, b)) == b)
+//
+//@ pure onDisk(v *value, a uint64, b uint64) bool = fs[vfile(v.dir, v.ext, a, b)]
+//@ pure DiskIs(v *value, a uint64, b uint64) bool = forall(x, y, onDisk(v, x, y) == (x == a && y == b))
+//@ pure ValueInv(v *value) bool = DiskIs(v, v.v1, v.v2)
+
+//@ func os.Rename params(oldpath, newpath)
+//@   trusted
+//@   modifies fs
+//@   ensures result0 == nil ==> old(fs[oldpath]) && forall(p, fs[p] == ite(p == newpath, true, ite(p == oldpath, false, old(fs[p]))))
+//@   ensures result0 != nil ==> fs == old(fs)
+
+//@ func syncDir
+//@   trusted
+
+//@ func valueFile
+//@   trusted
+//@   ensures result0 == vfile(dir, ext, v1, v2)
+
+//@ func assert
+//@   requires b
+
+//@ func opError
+//@   inline
+
+//@ func (*value).set
+//@   requires ValueInv(v)
+//@   modifies v.v1, v.v2, fs
+//@   ensures [C05.set-ok] result0 == nil ==> v.v1 == v1 && v.v2 == v2 && ValueInv(v)
+//@   ensures [C05.set-err] result0 != nil ==> v.v1 == old(v.v1) && v.v2 == old(v.v2)
+//@   ensures [C05.set-atomic] DiskIs(v, old(v.v1), old(v.v2)) || DiskIs(v, v1, v2)
+
+// ---------------------------------------------------------------------------
+// term / vote persistence (C05, C01, C10)
+
+//@ pure TermInv(s *storage) bool = s.termVal != nil && ValueInv(s.termVal) && s.termVal.v1 == s.term && s.termVal.v2 == s.votedFor
+//@ pure DurableIs(s *storage, t uint64, v uint64) bool = DiskIs(s.termVal, t, v)
+
+//@ func var grantingVote
+//@   trusted
+
+//@ func (*storage).setVotedFor
+//@   requires TermInv(s)
+//@   requires term >= s.term
+//@   modifies s.term, s.votedFor, s.termVal.v1, s.termVal.v2, fs
+//@   maypanic OpError
+//@   ensures [C05.persisted] s.term == term && s.votedFor == candidate && TermInv(s)
+//@   ensures [C05.termval-stable] s.termVal == old(s.termVal)
+//@   panic_ensures [C05.fail-keeps-memory] s.term == old(s.term) && s.votedFor == old(s.votedFor) && s.termVal == old(s.termVal)
+//@   panic_ensures [C05.fail-atomic] DurableIs(s, old(s.term), old(s.votedFor)) || DurableIs(s, term, candidate)
+
+//@ func (*storage).setTerm
+//@   requires TermInv(s)
+//@   requires term >= s.term
+//@   modifies s.term, s.votedFor, s.termVal.v1, s.termVal.v2, fs
+//@   maypanic OpError
+//@   ensures [C05.term-persisted] s.term == term && TermInv(s) && (term == old(s.term) ==> s.votedFor == old(s.votedFor)) && (term != old(s.term) ==> s.votedFor == 0)
+//@   ensures [C05.termval-stable] s.termVal == old(s.termVal)
+//@   panic_ensures [C05.fail-keeps-memory] s.term == old(s.term) && s.votedFor == old(s.votedFor) && s.termVal == old(s.termVal)
+//@   panic_ensures [C05.fail-atomic] DurableIs(s, old(s.term), old(s.votedFor)) || DurableIs(s, term, 0)
+
+// ---------------------------------------------------------------------------
+// node-level well-formedness used by the handlers
+
+//@ pure RaftWF(r *Raft) bool = r.storage != nil && TermInv(r.storage) && r.logger != nil && r.alerts != nil
+
+//@ func (*Raft).setState
+//@   requires r.logger != nil
+//@   modifies r.state
+//@   ensures r.state == s
+
+//@ func (*Raft).setLeader
+//@   requires r.logger != nil
+//@   modifies r.leader
+//@   ensures r.leader == id
+
+//@ func (*req).getTerm
+//@   inline
+
+// ---------------------------------------------------------------------------
+// RequestVote handler (C01, C02, C05, C17, C19)
+
+//@ func (*Raft).onVoteRequest
+//@   requires RaftWF(r)
+//@   modifies r.state, r.storage.term, r.storage.votedFor, r.storage.termVal.v1, r.storage.termVal.v2, fs
+//@   maypanic OpError
+//@   ensures [C05.granted-is-recorded] result0 == success ==> r.term == req.term && r.votedFor == req.src
+//@   ensures [C05.durable-before-reply] result0 == success ==> DurableIs(r.storage, req.term, req.src)
+//@   ensures [C01.vote-unique] result0 == success && r.term == old(r.term) ==> old(r.votedFor) == 0 || old(r.votedFor) == req.src
+//@   ensures [C05.term-monotone] r.term >= old(r.term) && (r.term == old(r.term) || r.term == req.term)
+//@   ensures [C05.vote-sticky] r.term == old(r.term) && old(r.votedFor) != 0 ==> r.votedFor == old(r.votedFor)
+//@   ensures [C02.uptodate] result0 == success && !(r.term == old(r.term) && old(r.votedFor) == req.src) ==>
+//@       req.lastLogTerm > r.lastLogTerm || (req.lastLogTerm == r.lastLogTerm && req.lastLogIndex >= r.lastLogIndex)
+//@   ensures [C17.leader-known] !req.transfer && old(r.leader) != 0 && req.src != old(r.leader) ==>
+//@       result0 == leaderKnown && r.term == old(r.term) && r.votedFor == old(r.votedFor) && r.state == old(r.state)
+//@   ensures [C01.step-down] r.term > old(r.term) ==> r.state == Follower
+//@   ensures [C19.wf] RaftWF(r) && result1 == nil
+//@   panic_ensures [C05.crash-atomic] r.term == old(r.term) && r.votedFor == old(r.votedFor)
